@@ -365,6 +365,12 @@ def c_nested_pair(case, ctx):
            "tm([position array, rotation array]) vs the described pose")
     _close(_gtm(sut(tm, [pl, wl]), "tm([[p],[w]])"), _gtm(sut(tm, pl + wl), "tm(list6)"), s,
            "tm([position, rotation]) vs tm(list6)")
+    # the two halves need not be of the same kind (callers write tm([t.gPos().flatten(), [0, 0, yaw]])): every mix of
+    # list / (3,) array halves describes the same pose ((3,1) columns are not an accepted half: not generated)
+    _close(_gtm(sut(tm, [p.copy(), wl]), "tm([p_arr,[w]])"), T, s,
+           "tm([position array, rotation list]) vs the described pose")
+    _close(_gtm(sut(tm, [pl, w.copy()]), "tm([[p],w_arr])"), T, s,
+           "tm([position list, rotation array]) vs the described pose")
 
 
 def c_quat_roundtrip(case, ctx):
